@@ -335,10 +335,11 @@ Proof.
       assert (L7 : log (nd s7) = log n).
       { change s7 with (fst (s7, done)). rewrite <- ST, log_set_transmission. exact L6. }
       destruct (done && load_dump_ok s7) eqn:DL.
-      + set (s8 := send_next_idx from None false true (load_dump e true s7)).
-        destruct (view_inv _ _ (view_ae_commit c (Some (last_idx (log (nd s8)))) s8))
+      + cbv zeta.
+        set (s8 := send_next_idx from (Some (applied (nd (load_dump e true s7)) + 1)) false true (load_dump e true s7)).
+        destruct (view_inv _ _ (view_ae_commit c (Some (applied (nd (load_dump e true s7)))) s8))
           as (_ & _ & _ & _ & _ & _ & _ & _ & _ & X & _). rewrite X.
-        destruct (view_inv _ _ (view_send_next_idx from None false true (load_dump e true s7)))
+        destruct (view_inv _ _ (view_send_next_idx from (Some (applied (nd (load_dump e true s7)) + 1)) false true (load_dump e true s7)))
           as (_ & _ & _ & _ & _ & _ & _ & _ & _ & Y & _). unfold s8. rewrite Y.
         apply log_wf_load_dump; [now rewrite L7|].
         (* the stored blob was assembled from well-formed pieces *)
